@@ -58,6 +58,7 @@ class Engine:
         self.models = []            # [(compiled regex, fn)] ; first match wins; obligation models first
         self.fallback_models = []   # consulted only when the callee has no MIR
         self.havoc = []             # compiled regexes of callees that may be summarised by a fresh value
+        self.call_observer = None   # optional fn(norm, args, result, how) called for every direct call ('model' | 'havoc' | 'mir' | 'fallback')
         self.bb_hooks = {}          # (fn key, bb) -> callable(eng, frame)
         self.call_hooks = {}        # fn key -> callable(eng, fn, args) -> None | ('return', value)
         self.drop_hooks = []        # [(regex on type, fn(eng, cell, ty))]
@@ -1536,6 +1537,8 @@ class Engine:
                 r = mdl[0](self, args, ctx)
                 if r is not NotImplemented:
                     self.models_used.add(mdl[1])
+                    if self.call_observer is not None:
+                        self.call_observer(norm, args, r, 'model')
             if r is NotImplemented:
                 if ret_bb is None and PANIC_CALLEES.search(norm):
                     msg = None
@@ -1561,15 +1564,21 @@ class Engine:
                             fb = (fn_, pat)
                             break
                 if f is not None:
+                    if self.call_observer is not None:
+                        self.call_observer(norm, args, None, 'mir')
                     r = self.exec_fn(f, args, fr.depth + 1, subst)
                 elif fb is not None:
                     self.models_used.add(fb[1])
                     r = fb[0](self, args, CallCtx(callee, norm, dty, fr, [self.operand_ty(fr, a) for a in argops], ret_bb))
+                    if self.call_observer is not None:
+                        self.call_observer(norm, args, r, 'fallback')
                 elif hav:
                     self.functions_havoced.add(norm)
                     if ret_bb is None:
                         raise PathEnd('diverge', norm)
                     r = self.fresh(dty, self.fresh_name('havoc_' + norm.split('::')[-1])) if dty else UNIT
+                    if self.call_observer is not None:
+                        self.call_observer(norm, args, r, 'havoc')
                 else:
                     if ret_bb is None:
                         raise PathEnd('panic', (fr.fn.name, norm, 'diverging call'))
